@@ -131,6 +131,118 @@ theorem handleEvent_body_eq_model (cl : List A → List (List A)) (hs : ClSane c
       rw [handle_text cl hs _ _ _ _ _ _ _ _ _ _ ht]; simp [TextFieldCl.handleKey, hl]
   · rw [handle_release]; simp [TextFieldCl.handleKey]
 
+/-! ### no callbacks installed -/
+
+macro "hkn" "[" ts:Lean.Parser.Tactic.simpLemma,* "]" : tactic =>
+  `(tactic| simp [tfHandleKeyNoCb, runFn, tfHandleEvent, execB, execS, evalE, keyEnv, envOfTF, getV, setV, cmpV, nonEmptyV,
+      tfCx4, doCall, evalArgs, E.isAbsent, tfCall3, tfCall2, tfCall1, recvOf, copyBack, TextFieldCl.handleKey, tfOfEnv, logOf,
+      cmpV_eq_nat0, $ts,*])
+
+section branchesN
+variable (cl : List A → List (List A)) (hs : ClSane cl) (tf : TextFieldCl.TF A)
+  (text : List A) (home toEnd right left delR delL kill enter : Bool)
+
+theorem handlen_release :
+    tfHandleKeyNoCb genTf cl tf ⟨true, text, home, toEnd, right, left, delR, delL, kill, enter⟩ = some (tf, []) := by
+  hkn []
+
+include hs in
+theorem handlen_text (ht : text ≠ []) :
+    tfHandleKeyNoCb genTf cl tf ⟨false, text, home, toEnd, right, left, delR, delL, kill, enter⟩ =
+      some (TextFieldCl.insertString cl tf text, []) := by
+  have he : text.isEmpty = false := by cases text with | nil => exact absurd rfl ht | cons a t => rfl
+  hkn [frame_insert cl hs tf, he]
+  by_cases hv : (TextFieldCl.insertString cl tf text).value = tf.value
+  · hk2 [hv]; rw [← hv]
+  · hk2 [hv]
+
+theorem handlen_home :
+    tfHandleKeyNoCb genTf cl tf ⟨false, [], true, toEnd, right, left, delR, delL, kill, enter⟩ = some ((TextFieldCl.cursorTo tf 0).1, []) := by
+  hkn [frame_cursorTo_zero cl tf]
+
+theorem handlen_end :
+    tfHandleKeyNoCb genTf cl tf ⟨false, [], false, true, right, left, delR, delL, kill, enter⟩ = some ((TextFieldCl.cursorTo tf tf.n).1, []) := by
+  hkn [frame_cursorTo cl tf]
+
+theorem handlen_right :
+    tfHandleKeyNoCb genTf cl tf ⟨false, [], false, false, true, left, delR, delL, kill, enter⟩ =
+      some ((TextFieldCl.cursorTo tf (tf.cursor + 1)).1, []) := by
+  hkn [frame_cursorTo_succ cl tf]
+
+theorem handlen_left :
+    tfHandleKeyNoCb genTf cl tf ⟨false, [], false, false, false, true, delR, delL, kill, enter⟩ =
+      some (if tf.cursor = 0 then tf else (TextFieldCl.cursorTo tf (tf.cursor - 1)).1, []) := by
+  by_cases hc : tf.cursor = 0
+  · hkn [hc, cmpI]; rw [← hc]
+  · hkn [hc, cmpI, frame_cursorTo_pred cl tf hc]
+
+include hs in
+theorem handlen_delRight :
+    tfHandleKeyNoCb genTf cl tf ⟨false, [], false, false, false, false, true, delL, kill, enter⟩ =
+      some ((TextFieldCl.deleteRight cl tf).1, []) := by
+  hkn [frame_delRight cl hs tf]
+  by_cases hv : (TextFieldCl.deleteRight cl tf).1.value = tf.value
+  · hk2 [hv]; rw [← hv]
+  · hk2 [hv]
+
+include hs in
+theorem handlen_delLeft :
+    tfHandleKeyNoCb genTf cl tf ⟨false, [], false, false, false, false, false, true, kill, enter⟩ =
+      some ((TextFieldCl.deleteLeft cl tf).1, []) := by
+  hkn [frame_delLeft cl hs tf]
+  by_cases hv : (TextFieldCl.deleteLeft cl tf).1.value = tf.value
+  · hk2 [hv]; rw [← hv]
+  · hk2 [hv]
+
+include hs in
+theorem handlen_kill :
+    tfHandleKeyNoCb genTf cl tf ⟨false, [], false, false, false, false, false, false, true, enter⟩ =
+      some ((TextFieldCl.killToEnd cl tf).1, []) := by
+  hkn [frame_kill cl hs tf]
+  by_cases hv : (TextFieldCl.killToEnd cl tf).1.value = tf.value
+  · hk2 [hv]; rw [← hv]
+  · hk2 [hv]
+
+theorem handlen_enter :
+    tfHandleKeyNoCb genTf cl tf ⟨false, [], false, false, false, false, false, false, false, true⟩ =
+      some (TextFieldCl.reset tf, []) := by
+  hkn [frame_reset cl tf, TextFieldCl.reset]
+
+theorem handlen_none :
+    tfHandleKeyNoCb genTf cl tf ⟨false, [], false, false, false, false, false, false, false, false⟩ = some (tf, []) := by
+  hkn []
+
+end branchesN
+
+/-- With no callback installed `HandleEvent` changes the state exactly as with callbacks and calls nothing. -/
+theorem handleEvent_nocb_body_eq_model (cl : List A → List (List A)) (hs : ClSane cl) (tf : TextFieldCl.TF A)
+    (ev : TextField.KeyEv A) :
+    tfHandleKeyNoCb genTf cl tf ev = some ((TextFieldCl.handleKey cl tf ev).1, []) := by
+  obtain ⟨rel, text, home, toEnd, right, left, delR, delL, kill, enter⟩ := ev
+  cases rel
+  · by_cases ht : text = []
+    · subst ht
+      cases home
+      · cases toEnd
+        · cases right
+          · cases left
+            · cases delR
+              · cases delL
+                · cases kill
+                  · cases enter
+                    · rw [handlen_none]; simp [TextFieldCl.handleKey]
+                    · rw [handlen_enter]; simp [TextFieldCl.handleKey]
+                  · rw [handlen_kill cl hs]; simp [TextFieldCl.handleKey]
+                · rw [handlen_delLeft cl hs]; simp [TextFieldCl.handleKey]
+              · rw [handlen_delRight cl hs]; simp [TextFieldCl.handleKey]
+            · rw [handlen_left]; by_cases hc : tf.cursor = 0 <;> simp [TextFieldCl.handleKey, hc]
+          · rw [handlen_right]; simp [TextFieldCl.handleKey]
+        · rw [handlen_end]; simp [TextFieldCl.handleKey]
+      · rw [handlen_home]; simp [TextFieldCl.handleKey]
+    · have hl : text.length > 0 := by cases text with | nil => exact absurd rfl ht | cons a t => simp
+      rw [handlen_text cl hs _ _ _ _ _ _ _ _ _ _ ht]; simp [TextFieldCl.handleKey, hl]
+  · rw [handlen_release]; simp [TextFieldCl.handleKey]
+
 /-! ### histories through the translated bodies -/
 
 open VaxisModel.Lemmas.EditorCl (TFOpC tfStepC tfRunC) in
